@@ -159,11 +159,48 @@ def grid_items(rng, npool, nbin, rot, tier="quick", classes=True):
         def add(name, p, r, body):
             funcs.append({"type": ty(p, r), "locals": [], "body": body + [["end"]]})
             exports.append({"name": name, "kind": "func", "idx": len(funcs) - 1})
+        tobits = f32bits if t == "f32" else f64bits
+        mant = 23 if t == "f32" else 52
+        ROUND = [tobits(x) for x in (0.5, 0.25, 0.75, 0.49999997, 1.5, 2.5, 3.5, 0.99999994, 2.0 ** mant + 1, 2.0 ** mant - 0.5 if t == "f64" else 8388607.5,
+                                     2.0 ** (mant + 1) - 1, 2.0 ** (mant - 1) + 0.5, 1e-30, 2.0 ** 31 + 0.5 if t == "f64" else 2147483648.0)]
+        ROUND = [r_ | s_ for r_ in ROUND + [0] for s_ in (0, 1 << (31 if t == "f32" else 63))]
         for o in FUN:
             # results are observed as integer bits so that NaN payloads of bit-preserving ops are compared exactly
             exact = o in ("abs", "neg")
             add(o, [t], [it_ if exact else t], [["local.get", 0], ["%s.%s" % (t, o)]] + ([["%s.reinterpret_%s" % (it_, t)]] if exact else []))
-            calls += [{"op": "call", "inst": 1, "export": o, "args": [val(t, a)]} for a in P[t]]
+            # (the rounding points and signed zeros are part of every pool size)
+            calls += [{"op": "call", "inst": 1, "export": o, "args": [val(t, a)]} for a in dict.fromkeys(P[t] + ROUND)]
+        # immediates as operands (constants are printed by the translator): every binary operator and the bit-preserving unary ones
+        CK = [x for x in class_pool(t) if True][::2] + [tobits(0.1), tobits(1e22 if t == "f64" else 1e10), tobits(16777216.0)]
+        cst = (lambda x: [t + ".const", list(x.to_bytes(4 if t == "f32" else 8, "little"))])
+        # constants that need EVERY digit of the round-trip precision (9 for f32, 17 for f64): pseudo-random finite bit patterns
+        # whose value is not the nearest one to its own text with one digit less, plus as many unfiltered ones
+        import struct as _st
+        drng = random.Random(SEED * 31 + (32 if t == "f32" else 64))
+        fmt_, w_, dig_ = ("<f", 4, 8) if t == "f32" else ("<d", 8, 16)
+        need, plain = [], []
+        while len(need) < (40 if classes else 12) or len(plain) < (40 if classes else 12):
+            bits_ = drng.getrandbits(8 * w_)
+            val_ = _st.unpack(fmt_, bits_.to_bytes(w_, "little"))[0]
+            if val_ != val_ or val_ in (float("inf"), float("-inf")):
+                continue
+            short = _st.unpack(fmt_, _st.pack(fmt_, float("%.*g" % (dig_, val_))))[0] if t == "f32" else float("%.*g" % (dig_, val_))
+            (need if short != val_ else plain).append(bits_)
+        ALLDIG = need[:40 if classes else 12] + plain[:40 if classes else 12]
+        for ci, cv in enumerate(ALLDIG):
+            add("neg_d%d" % ci, [], [it_], [cst(cv), ["%s.neg" % t], ["%s.reinterpret_%s" % (it_, t)]])
+            calls.append({"op": "call", "inst": 1, "export": "neg_d%d" % ci, "args": []})
+        for ci, cv in enumerate(CK):
+            for o in ("neg", "abs"):
+                add("%s_c%d" % (o, ci), [], [it_], [cst(cv), ["%s.%s" % (t, o)], ["%s.reinterpret_%s" % (it_, t)]])
+                calls.append({"op": "call", "inst": 1, "export": "%s_c%d" % (o, ci), "args": []})
+            for o in FBIN + FREL:
+                for side in (0, 1):
+                    exact = o == "copysign"
+                    rt_ = "i32" if o in FREL else (it_ if exact else t)
+                    body = ([["local.get", 0], cst(cv)] if side else [cst(cv), ["local.get", 0]]) + [["%s.%s" % (t, o)]] + ([["%s.reinterpret_%s" % (it_, t)]] if exact else [])
+                    add("%s_k%d_%d" % (o, ci, side), [t], [rt_], body)
+                    calls += [{"op": "call", "inst": 1, "export": "%s_k%d_%d" % (o, ci, side), "args": [val(t, a)]} for a in class_pool(t)[::5]]
         big = FBIN if rot is None else [o for j, o in enumerate(FBIN) if o == "copysign" or (j + rot) % 2 == 0]
         CL = class_pool(t) if classes else class_pool(t)[::4]
         for o in FBIN:
